@@ -523,6 +523,28 @@ pub fn e2_jobs(prop: &str, tier: Tier) -> Vec<E2Job> {
         jobs.push(E2Job { label: "async scripts over thread-local plans (polling / accessors between dispatch and wait) and back-to-back dispatch() calls on every <= 2-op plan".into(), scenarios: scs, bounds: b(1), delay: false });
     }
     if prop == "C04" || prop == "C05" {
+        // dispatch entered from a worker of a FOREIGN pool (of 1 or 2 threads): the dispatcher's own pool (user-supplied
+        // or default) does the work, every system runs once; plans with single- and multi-group stages, batches
+        let mut scs = Vec::new();
+        let mut plans: Vec<Vec<Op>> = core(vec![3], 2);
+        plans.extend(eb(1));
+        plans.push(wide_stage(3));
+        plans.push(vec![Op::Sys(crate::spec::SysSpec { name: "w".into(), reads: vec![], writes: vec![0], time: 3, deps: vec![] }), Op::Sys(crate::spec::SysSpec { name: "r1".into(), reads: vec![0], writes: vec![], time: 3, deps: vec![] }), Op::Sys(crate::spec::SysSpec { name: "r2".into(), reads: vec![0], writes: vec![], time: 3, deps: vec![] }), Op::Sys(crate::spec::SysSpec { name: "w2".into(), reads: vec![], writes: vec![0], time: 3, deps: vec![] })]);
+        for p in &plans {
+            for foreign in [1usize, 2] {
+                for own_user in [Some(2usize), None] {
+                    for mode in [Mode::Dispatch, Mode::Par] {
+                        let mut s = Scenario::plain(p.clone(), mode, 2);
+                        s.foreign_pool = Some(foreign);
+                        s.user_pool = own_user;
+                        scs.push(s);
+                    }
+                }
+            }
+        }
+        jobs.push(E2Job { label: "dispatch entered from a worker of a foreign pool of 1 / 2 threads (own pool user-supplied or default): <= 2-op plans, single batches, 3-wide stage, writer / two readers / writer".into(), scenarios: scs, bounds: b(if q { 0 } else { 1 }), delay: false });
+    }
+    if prop == "C04" || prop == "C05" {
         // pool-size sweep: stages wider than / equal to / narrower than the pool
         let mut scs = Vec::new();
         for w in [2usize, 3, 5, 7] {
@@ -1530,6 +1552,20 @@ pub fn run_c09(tier: Tier, budget: Duration, frag: &mut Frag) {
         // id-space boundaries: neighbours at the top of the range, ids that collide when truncated to 32 bits or
         // when the top bit is lost, ids around the 32-bit boundary
         jobs.push((if q { 2 } else { 3 }, q, b.clone()));
+    }
+    {
+        // unusual but legitimate resource types
+        let t1 = Instant::now();
+        let depth = if q { 4 } else { 5 };
+        let (types, hist) = crate::c09::zoo_sweep(depth, &mut frag.col);
+        frag.parts.push(json!({
+            "engine": "E3 histmc",
+            "what": format!("World map histories over a zoo of {} resource types (Box<dyn Resource>, Box<u64>, Arc<u64>, u64, (), (u64, String), Option<u64>, Vec<Box<dyn Resource>>, Mutex<u64>): every history of <= {} operations over insert / insert_by_id / remove / remove_by_id / entry / typed system-data read on slots (T,0), (T,1); after every step presence, the stored value's dynamic type and the fetched value are compared with the model", types, depth),
+            "histories": hist, "wall_s": t1.elapsed().as_secs_f64(),
+        }));
+        frag.states += hist;
+        frag.transitions += hist;
+        frag.traces_validated += hist;
     }
     let n = jobs.len() as u32;
     for (depth, full, ids) in jobs {
